@@ -216,6 +216,20 @@ fn ssn_gt(a: u16, b: u16) -> bool {
     (a.wrapping_sub(b) as i16) > 0
 }
 
+/// Oldest outstanding TSN in serial-number order. The map is keyed by the raw
+/// u32, so while the outstanding TSNs straddle the 2^32 roll-over its first
+/// key (0, 1, ..) is not the oldest one (0xFFFF_FFFE, ..). Outstanding TSNs
+/// span less than 2^31, so keys at least 2^31 above the first key precede it.
+fn oldest_outstanding_tsn(sent_queue: &BTreeMap<u32, ChunkRecord>) -> Option<u32> {
+    let first = *sent_queue.keys().next()?;
+    if first < 0x8000_0000
+        && let Some((&wrapped, _)) = sent_queue.range(first + 0x8000_0000..).next()
+    {
+        return Some(wrapped);
+    }
+    Some(first)
+}
+
 #[derive(Debug, Clone)]
 pub(crate) struct OutboundChunk {
     pub(crate) stream_id: u16,
@@ -514,10 +528,10 @@ fn apply_sack_to_sent_queue(
     count_missing_reports: bool,
     max_tsn_retransmits: u32,
 ) -> SackOutcome {
-    let before_head = sent_queue.keys().next().cloned();
+    let before_head = oldest_outstanding_tsn(sent_queue);
 
     // 0. Filter out late SACKs
-    if let Some(&lowest_tsn) = sent_queue.keys().next()
+    if let Some(lowest_tsn) = before_head
         && (cumulative_tsn_ack.wrapping_sub(lowest_tsn.wrapping_sub(1)) as i32) < 0
     {
         // This SACK is even older than our earliest outstanding TSN,
@@ -697,7 +711,7 @@ fn apply_sack_to_sent_queue(
     }
     outcome.retransmit = to_retransmit;
 
-    let after_head = sent_queue.keys().next().cloned();
+    let after_head = oldest_outstanding_tsn(sent_queue);
     outcome.head_moved = before_head != after_head;
 
     if !outcome.retransmit.is_empty() {
@@ -3521,7 +3535,15 @@ impl SctpInner {
 
         let mut new_advanced = advanced;
         let mut has_abandoned = false;
-        let tsns: Vec<u32> = sent_queue.keys().cloned().collect();
+        // Walk the queue in serial order (it may straddle the TSN roll-over).
+        let tsns: Vec<u32> = match oldest_outstanding_tsn(&sent_queue) {
+            Some(head) => sent_queue
+                .range(head..)
+                .chain(sent_queue.range(..head))
+                .map(|(&tsn, _)| tsn)
+                .collect(),
+            None => Vec::new(),
+        };
         for tsn in tsns {
             if !tsn_gt(tsn, new_advanced) && tsn != new_advanced.wrapping_add(1) {
                 continue;
